@@ -15,6 +15,15 @@ import (
 	"github.com/docker/docker/client"
 )
 
+// What an inventory_change fault turns a container into.
+const (
+	ChangedState  = "exited"
+	ChangedStatus = "Exited (137) 1 second ago"
+)
+
+// ChangedName is the name a container carries after an inventory_change fault.
+func ChangedName(id string) string { return "renamed-" + id[:4] }
+
 // ErrInjected is the error injected by read/open/list faults.
 var ErrInjected = errors.New("verifsim: injected fault")
 
@@ -286,7 +295,14 @@ func (d *Daemon) ContainerList(_ context.Context, opts apicontainer.ListOptions)
 	var out []types.Container
 	for i := range d.world.Containers {
 		c := &d.world.Containers[i]
-		if !opts.All && c.State != "running" {
+		state, status, names := c.State, c.Status, append([]string(nil), c.Names...)
+		for _, f := range d.faults {
+			if f.Kind == FaultInventoryChange && f.Container == c.ID && k >= f.K {
+				state, status, names = ChangedState, ChangedStatus, []string{"/" + ChangedName(c.ID)}
+				d.FaultsFired[FaultInventoryChange]++
+			}
+		}
+		if !opts.All && state != "running" {
 			continue
 		}
 		var labels map[string]string
@@ -298,13 +314,13 @@ func (d *Daemon) ContainerList(_ context.Context, opts apicontainer.ListOptions)
 		}
 		out = append(out, types.Container{
 			ID:      c.ID,
-			Names:   append([]string(nil), c.Names...),
+			Names:   names,
 			Image:   c.Image,
 			ImageID: c.ImageID,
 			Command: c.Command,
 			Created: c.Created,
-			State:   c.State,
-			Status:  c.Status,
+			State:   state,
+			Status:  status,
 			Labels:  labels,
 		})
 	}
@@ -782,5 +798,11 @@ func (s *SimStream) Close() error {
 	s.closed = true
 	s.Info.Closes++
 	d.ev("close", s.Info.ID, s.Info.OpenIdx, s.Info.Closes)
+	for _, f := range d.faults {
+		if f.Kind == FaultCloseError && f.Container == s.Info.ID && (f.Open < 0 || f.Open == s.Info.OpenIdx) {
+			d.FaultsFired[FaultCloseError]++
+			return fmt.Errorf("close %s: %w", s.Info.ID, ErrInjected)
+		}
+	}
 	return nil
 }
